@@ -1,6 +1,6 @@
 from collections import Counter
 from itertools import product
-from networkx import DiGraph, find_cycle
+from networkx import DiGraph, NetworkXNoCycle, find_cycle
 from numpy import zeros, ones, array, random, log, sum, max, argmax, argsort, unique, intersect1d, where
 
 from dsw.operation import Monitor, calculus_addition, calculus_multiplication, calculus_division
@@ -686,17 +686,21 @@ def connect_coding_graph(observed_length, vertices, threshold, verbose=False):
                 vertices = obtain_vertices(accessor)
                 graph = DiGraph()
                 for former_index, latter_indices in enumerate(accessor):
-                    for latter_index in latter_indices:
-                        if latter_index >= 0:
-                            graph.add_edge(u_of_edge=former_index, v_of_edge=latter_index)
-                useless_vertices, cycle = [], find_cycle(graph)
+                    if len(where(latter_indices >= 0)[0]) == 1:  # only information-free vertices form useless cycles.
+                        for latter_index in latter_indices:
+                            if latter_index >= 0:
+                                graph.add_edge(u_of_edge=former_index, v_of_edge=latter_index)
+                try:
+                    useless_vertices, cycle = [], find_cycle(graph)
+                except NetworkXNoCycle:
+                    break
                 for former_index, latter_index in cycle:
                     if len(where(accessor[former_index] >= 0)[0]) == 1:
                         useless_vertices.append(former_index)
                 if len(useless_vertices) == len(cycle):
                     for useless_vertex in useless_vertices:
                         accessor[useless_vertex] = -1
-                        pairs = [(i, useless_vertex) for i in obtain_formers(useless_vertex, 10)]
+                        pairs = [(i, useless_vertex) for i in obtain_formers(useless_vertex, observed_length)]
                         while len(pairs) > 0:
                             new_pairs = []
                             for former_index, latter_index in pairs:
@@ -704,10 +708,14 @@ def connect_coding_graph(observed_length, vertices, threshold, verbose=False):
                                 accessor[former_index, latter_index % 4] = -1
                                 current = len(where(accessor[former_index] >= 0)[0])
                                 if previous > current == 0:
-                                    new_pairs += [(i, former_index) for i in obtain_formers(former_index, 10)]
+                                    formers = obtain_formers(former_index, observed_length)
+                                    new_pairs += [(i, former_index) for i in formers]
                             pairs = new_pairs
                 else:
                     break
+
+            if len(vertices) == 0:
+                raise ValueError("No coding graph is created!")
 
         if verbose:
             print("The coding graph is created.")
